@@ -125,7 +125,10 @@ class Constructor:
         main_attrs = mapping.copy()
         extra_attrs = OrderedDict(mapping.items())
         for name in attr_names:
-            if name not in known_attrs or name == '_yatiml_extra':
+            # self is in known_attrs, but it's not an attribute
+            if (
+                    name not in known_attrs or name == '_yatiml_extra'
+                    or name == 'self'):
                 del (main_attrs[name])
             else:
                 del (extra_attrs[name])
